@@ -59,7 +59,13 @@ class C04(CodecBase):
     def strategy(self):
         base = super().strategy()
         general = st.tuples(base, st.sampled_from(['none', 'none', 'variant', 'chk', 'unknown', 'unknown', 'alias', 'misplaced', 'misplaced', 'dup',
-                                                   'missing', 'grpstart']), st.integers(0, 2 ** 32 - 1))
+                                                   'missing', 'grpstart', 'dup_data']), st.integers(0, 2 ** 32 - 1))
+        # messages that certainly carry a Length/data pair, for the duplicate-data deviation
+        def paired(name):
+            sch = self.schemas[name]
+            ptypes = [t for t in sch.types() if sch.traits(t).pairs()]
+            return fixref.st_message(sch, mtypes=ptypes, pair_bias=True, unpaired_length=self.unpaired_length).map(lambda spec: {'schema': name, 'spec': spec})
+        dupdata = st.tuples(st.sampled_from(SCHEMAS).flatmap(paired), st.just('dup_data'), st.integers(0, 2 ** 32 - 1))
 
         # group deviations need messages with populated groups of several elements: message types that have groups, dense sections
         def grouped(name):
@@ -67,7 +73,8 @@ class C04(CodecBase):
             gtypes = [t for t in sch.types() if any(tr.grp for tr in sch.traits(t).list)]
             return fixref.st_message(sch, mtypes=gtypes, dense=True, max_elems=3, unpaired_length=self.unpaired_length).map(lambda spec: {'schema': name, 'spec': spec})
         groups = st.tuples(st.sampled_from(SCHEMAS).flatmap(grouped), st.sampled_from(['grpstart', 'grpstart', 'missing', 'dup', 'none']), st.integers(0, 2 ** 32 - 1))
-        return st.one_of(general, general, general, groups).map(lambda t: dict(t[0], dev=t[1], r=t[2]))
+        # (one_of drops repeated strategy objects, so the weights are drawn explicitly: 6 : 2 : 1)
+        return st.integers(0, 8).flatmap(lambda i: general if i < 6 else groups if i < 8 else dupdata).map(lambda t: dict(t[0], dev=t[1], r=t[2]))
 
     def run(self, case, ex):
         sch = self.schemas[case['schema']]
@@ -191,6 +198,29 @@ class C04(CodecBase):
                 conforming = False
                 desc = 'duplicate of tag %d (section %s) at token index %d' % (e['tag'], e['sec'], pos)
                 nontrivial = pos > last_mand_idx(e['sec'])
+        elif dev == 'dup_data':
+            # a length-prefixed data field that occurs twice in its section: a bare copy in front of the pair, a bare copy behind it, or the whole pair twice
+            pairs_at = [i for i in range(len(ents) - 1) if ents[i]['depth'] == 0 and ents[i]['traits'][ents[i]['tag']].ft == fixref.FT_Length
+                        and ents[i + 1]['depth'] == 0 and ents[i + 1]['traits'][ents[i + 1]['tag']].ft in (fixref.FT_data, fixref.FT_XMLData)
+                        and ents[i]['sec'] == ents[i + 1]['sec'] and '\x01' not in ents[i + 1]['text']]
+            if not pairs_at:
+                dev = 'none'
+            else:
+                i = rnd.choice(pairs_at)
+                ln, dt = dict(ents[i]), dict(ents[i + 1])
+                rng = sec_range(ln['sec'])
+                how = rnd.choice(['bare_before', 'bare_after', 'pair_twice'])
+                if how == 'bare_before':
+                    tops = [j for j in range(rng[0], i + 1) if ents[j]['depth'] == 0]
+                    ents.insert(rnd.choice(tops), dt)
+                elif how == 'bare_after':
+                    ents.insert(i + 2, dt)
+                else:
+                    ents[i + 2:i + 2] = [ln, dt]
+                conforming = False
+                nontrivial = True
+                info_cls.append('dup_data:' + how)
+                desc = 'data field %d occurs twice in section %s (%s)' % (dt['tag'], dt['sec'], how)
         elif dev == 'missing':
             cands = [i for i, e in enumerate(ents) if e['man'] and not e['grp'] and not e['elem_start'] and
                      e['traits'][e['tag']].ft not in (fixref.FT_Length, fixref.FT_data)]
